@@ -29,6 +29,20 @@ TextChangesViol(r) ==
               /\ Len(nonIns) = r.ntok_old /\ Len(nonDel) = r.ntok_new
            THEN {} ELSE {"index_seq"})
      \cup (IF r.all = r.per_op THEN {} ELSE {"iter_agree"})
+     \* beyond the listed properties: what a change shows.  The missing-newline flag is "the
+     \* value does not end in LF or CR"; for UTF-8 text the lossy string is the value and Display
+     \* is the value plus a line feed when the flag is set; the tag prints as ' ', '-' or '+'.
+     \cup (IF "shown" \in DOMAIN r /\ Len(r.shown) = Len(ch)
+              /\ \E i \in 1..Len(ch) :
+                    LET v == ch[i][4]
+                        sh == r.shown[i]
+                        miss == ~(v # <<>> /\ v[Len(v)] \in {10, 13})
+                    IN \/ sh[3] # miss
+                       \/ sh[4] # <<(CASE ch[i][1] = 0 -> 32 [] ch[i][1] = 1 -> 45 [] OTHER -> 43)>>
+                       \/ (r.utf8 /\ (sh[2] # v \/ sh[1] # v \o (IF miss THEN <<10>> ELSE <<>>)))
+                       \/ (sh[1] # sh[2] \o (IF miss THEN <<10>> ELSE <<>>))
+           THEN {"beyond_display"} ELSE {})
+     \cup (IF "shown" \in DOMAIN r /\ Len(r.shown) # Len(ch) THEN {"beyond_display"} ELSE {})
 
 (* C04 at token granularity (inputs too large to log byte by byte): tokens are numbered by  *)
 (* the harness's own dictionary, equal numbers = equal token texts.                          *)
